@@ -513,6 +513,8 @@ fn read_register(
 
 #[inline(never)]
 fn scalar_from_bytes<T: Copy>(bytes: &Bytes) -> T {
+    #[cfg(feature = "verif")]
+    crate::verif::probe::check("eval::scalar_from_bytes", bytes.len(), std::mem::size_of::<T>());
     let ptr = bytes.as_ptr();
     unsafe { std::ptr::read_unaligned::<T>(ptr as *const T) }
 }
